@@ -1165,6 +1165,8 @@ class Standard(Output):
 
     def _plot_rank_core(self, data):
         F = data.num_inputs
+        if F < 2:
+            verif.util.error("Rank plot requires at least 2 files")
 
         # Choose which axes to make plots for
         if self.axis == verif.axis.All():
